@@ -635,10 +635,19 @@ class AbstractConstraintSet(AbstractConstraint):
         return iter(self._values)
 
     def __add__(self, value):
-        return self.__class__(*(self._values + (value,)))
+        return self._derive(self._values + (value,))
 
     def __radd__(self, value):
-        return self.__class__(*((value,) + self._values))
+        return self._derive((value,) + self._values)
+
+    def _derive(self, values):
+        # the derived set remembers the set it narrows (and what that one
+        # was derived from), that is what isSuperTypeOf/isSubTypeOf look at
+        constraintSet = self.__class__(*values)
+        if self._values:
+            constraintSet._valueMap.add(self)
+            constraintSet._valueMap.update(self._valueMap)
+        return constraintSet
 
     def __len__(self):
         return len(self._values)
